@@ -676,14 +676,30 @@ fn finish(mut s: Session, err: Option<String>, n_ops: usize, op_kinds: Vec<&'sta
 pub fn random_sequence(slot: Slot, rng: &mut Rng, max_ops: usize) -> (SeqOut, Slot) {
     let k = 1 + rng.below(4);
     let tc = if rng.chance(4, 5) { k } else { 1 + rng.below(k) };
-    let mut s = Session::new(slot, k, tc, None);
+    // a third of the sequences run on a market WITH a timeout that never expires (one hour): the timeout thread exists
+    // but must not take part in anything — in particular it must not consume a wake-up meant for a parked worker
+    let close_at = if rng.chance(1, 3) { Some(std::time::SystemTime::now() + Duration::from_secs(3600)) } else { None };
+    let with_timeout = close_at.is_some();
+    let mut s = Session::new(slot, k, tc, close_at);
     let n = 1 + rng.below(max_ops);
     let mut after_close = 0;
     let mut kinds = vec![];
     let mut err = None;
     let mut done = 0;
     for _ in 0..n {
-        let ops = enabled_ops(&mut s, false);
+        let mut ops = enabled_ops(&mut s, false);
+        if with_timeout {
+            // Keep the market OPEN in these sequences: once it is closed the timeout thread notices within its 1 s poll
+            // period and drops its own handle (one more notify_all, open_count - 1) at a moment the orchestrator cannot
+            // control, so everything observable afterwards would depend on timing. What is under test here is the open
+            // market: pushes and splits must reach the parked WORKERS although one more thread holds the condvar.
+            let last_running = s.mirror.oc <= 1 && s.mirror.batches.is_empty();
+            ops.retain(|(o, _)| match o {
+                Op::Drop(_) | Op::XDrop => false,
+                Op::Pop(_) => !last_running,
+                _ => true,
+            });
+        }
         let total: usize = ops.iter().map(|o| o.1).sum();
         let mut x = rng.below(total);
         let mut op = ops[0].0.clone();
@@ -721,6 +737,7 @@ pub fn random_sequence(slot: Slot, rng: &mut Rng, max_ops: usize) -> (SeqOut, Sl
             }
         }
     }
+    if with_timeout { kinds.push("market-with-unexpired-timeout"); }
     finish(s, err, done, kinds)
 }
 
